@@ -1,6 +1,8 @@
 /-
 C11 — negation witnesses: concrete inputs on which the *full-strength* statement is false of the
-model (and, replayed by the harness, of the implementation).  Each is listed in known_findings.txt.
+model (and, replayed by the harness, of the implementation); each is listed in known_findings.txt as `finding:`.
+Regression theorems: the inputs of findings that were repaired in /repo (`fixed:` lines), stating the now-correct
+behaviour.
 -/
 import WpModel.Props.C11
 import WpModel.Props.C11Flow
@@ -8,46 +10,62 @@ import WpModel.Props.C11Flow
 namespace Wp.Witness.C11
 open Wp Wp.Floats Wp.Absolute Wp.C11
 
-/-- `left:0; right:0; width:50px; margin-left:auto; margin-right:10px` in a 100-px containing block:
-`absolute_width` sets `margin-left = cb_width − (left + right + width + paddings + borders) = 50`
-without subtracting `margin-right`, so the margin box is 110 px wide and the border box ends at the
-containing block's right edge instead of 10 px before it.  The unrestricted equation
-`abs_equation_h` is therefore false. -/
-theorem abs_auto_margin_ignores_opposite_margin :
+/-! ### Regressions: inputs of former findings, repaired in /repo (`fixed:` lines of known_findings.txt).
+Each states the now-correct behaviour on the input that used to refute the clause. -/
+
+/-- `left:0; right:0; width:50px; margin-left:auto; margin-right:10px` in a 100-px containing block
+(former finding abs-auto-margin-ignores-opposite-margin, repaired in 7752e9b): `margin-left = 100 − 50 − 10 = 40`,
+the margin box fills the containing block and the border box ends 10 px before its right edge. -/
+theorem abs_auto_margin_takes_the_rest :
     let b : HBox := ⟨some 0, some 0, some 50, none, some 10, 0, 0, 0, 0, 0, none, 0, 0, 0⟩
     let u := usedH b true 0 100
-    MarginDefectH b true ∧ u.ml = 50 ∧ u.x + u.ml + b.pb + u.w + u.mr ≠ 0 + 100 - 0 := by
-  refine ⟨by simp [MarginDefectH], by decide +kernel, by decide +kernel⟩
+    u.ml = 40 ∧ u.x + u.ml + b.pb + u.w + u.mr = 0 + 100 - 0 := by
+  refine ⟨by decide +kernel, by decide +kernel⟩
 
 /-- The same vertically: `top:0; bottom:0; height:10px; margin-top:auto; margin-bottom:10px` in a
-100-px-high containing block gives `margin-top = 90`, not 80. -/
-theorem abs_auto_margin_top_ignores_margin_bottom :
+100-px-high containing block gives `margin-top = 80`. -/
+theorem abs_auto_margin_top_takes_the_rest :
     let b : VBox := ⟨some 0, some 0, some 10, none, some 10, 0, 0, 0, 0, 0⟩
     let u := usedV b 0 100 0
-    MarginDefectV b ∧ u.mt = 90 ∧ u.y + u.mt + b.pb + u.h + u.mb ≠ 0 + 100 - 0 := by
-  refine ⟨by simp [MarginDefectV], by decide +kernel, by decide +kernel⟩
+    u.mt = 80 ∧ u.y + u.mt + b.pb + u.h + u.mb = 0 + 100 - 0 := by
+  refine ⟨by decide +kernel, by decide +kernel⟩
 
 /-- And for replaced boxes: `left:0; right:0; margin-left:auto; margin-right:10px` on a 50-px-wide
-image in a 100-px containing block gives `margin-left = 50`: the equation sums to 110. -/
-theorem abs_replaced_auto_margin_ignores_opposite_margin :
+image in a 100-px containing block gives `margin-left = 40`: the equation sums to 100. -/
+theorem abs_replaced_auto_margin_takes_the_rest :
     let b : RBox := ⟨some 0, some 0, some 0, none, none, some 10, some 0, some 0, 50, 10,
       0, 0, 0, 0, 0, 0, 0, 0, 0, 0⟩
     let r := absoluteReplacedH b true 0 100
-    ReplacedDefectH b ∧ r.ml = some 50 ∧ r.left = some 0 ∧ r.right = some 0 ∧
-      (0 : Rat) + 50 + b.borderWidth + 10 + 0 ≠ 100 := by
-  refine ⟨by simp [ReplacedDefectH], by decide +kernel, by decide +kernel, by decide +kernel, by decide +kernel⟩
+    r.ml = some 40 ∧ r.left = some 0 ∧ r.right = some 0 ∧
+      (0 : Rat) + 40 + b.borderWidth + 10 + 0 = 100 := by
+  refine ⟨by decide +kernel, by decide +kernel, by decide +kernel, by decide +kernel⟩
 
-/-- A float whose border box has height 0 (`height:0` with overflowing content, or an empty float
-with margins) is not placed at all: `avoid_collisions` returns `(0, 0, cb_width)` and
-`find_float_position` moves the box to the *page origin* — outside its containing block, above its
-static position and above earlier floats.  `float_rules` therefore needs `border_height ≠ 0`. -/
-theorem zero_height_float_goes_to_page_origin :
-    let shapes : List Shape := [⟨50, 70, 20, 20, .left⟩]
+/-- A float whose border box has height 0 (former finding zero-height-float-at-page-origin, repaired in 50ab141)
+stays at its static position against the left edge of its containing block instead of going to the page origin
+(the same input as the former witness, with the earlier float moved out of the way). -/
+theorem zero_height_float_keeps_static_position :
+    let shapes : List Shape := [⟨50, 40, 20, 20, .left⟩]
     let b : ABox := ⟨70, 70, 5, 5, 5, 5, 10, 0, .left, .none, .bfc⟩
     let cb : CB := ⟨50, 100, false⟩
-    (findFloatPosition shapes b cb).toOption = some (0, 0) ∧
-    ¬ (b.py ≤ 0) ∧ ¬ (cb.cx ≤ 0) := by
-  refine ⟨by decide +kernel, by decide +kernel, by decide +kernel⟩
+    (findFloatPosition shapes b cb).toOption = some (50, 70) := by
+  decide +kernel
+
+/-! ### Witnesses: clauses false of the current code (`finding:` lines of known_findings.txt) -/
+
+/-- The repair of zero-height-float-at-page-origin is an early return that does not look at the other floats: a
+float with an empty border box but vertical margins (margin box 20×10) is put at the containing block's left edge
+at its static `y`, on top of the 20×20 left float that is already there.  `float_no_overlap` and
+`float_place_invariants` therefore still need `border_height ≠ 0`
+(finding zero-height-float-ignores-other-floats). -/
+theorem zero_height_float_overlaps_earlier_float :
+    let shapes : List Shape := [⟨50, 70, 20, 20, .left⟩]
+    let b : ABox := ⟨50, 70, 5, 5, 5, 5, 10, 0, .left, .none, .bfc⟩
+    let cb : CB := ⟨50, 100, false⟩
+    (findFloatPosition shapes b cb).toOption = some (50, 70) ∧
+    Overlaps 50 70 b.marginWidth b.marginHeight ⟨50, 70, 20, 20, .left⟩ := by
+  refine ⟨by decide +kernel, ?_⟩
+  simp [Overlaps, ABox.marginWidth, ABox.marginHeight]
+  decide +kernel
 
 /-- Zero-height *shapes* make the collision test a closed-interval test (boundary behaviour of
 `collide_iff`): a box that only touches a zero-height float with its bottom edge is treated as
@@ -62,21 +80,22 @@ theorem zero_height_shape_blocks_a_position_that_fits :
   intro _ _
   decide +kernel
 
-/-- `float_width` offers `shrink_to_fit` the whole width of the containing block: an auto-width float with
-`padding: 0 10px; margin-left: 5px` whose content could take 300px gets a 100px content box in a 100px
-container, so its margin box (125px) does not fit where a CSS 2.1 §10.3.5 float (75px of content) would. -/
-theorem float_shrink_to_fit_ignores_margins_paddings :
+/-- Regression (former finding float-shrink-to-fit-ignores-margins-paddings, repaired in 8719f13): an auto-width
+float with `padding: 0 10px; margin-left: 5px` whose content could take 300px gets a 75px content box in a 100px
+container: its margin box is exactly 100px wide and fits. -/
+theorem float_shrink_to_fit_leaves_room_for_margins_paddings :
     let f : FloatSpec := ⟨.left, .none, .auto, none, .px 5, .px 0, .px 0, .px 0, .px 10, .px 10, .px 0, .px 0,
       0, 0, 0, 0, .auto, .auto, 40, 300, 10, 30⟩
-    (floatResolve f 100).marginWidth = 125 ∧ ¬ ((floatResolve f 100).marginWidth ≤ 100) := by
-  refine ⟨by decide +kernel, by decide +kernel⟩
+    (floatResolve f 100).marginWidth = 100 := by
+  decide +kernel
 
-/-- `float_layout` only calls `float_width` (and with it the min/max wrapper) for an auto width:
-`width: 200px; max-width: 100px` stays 200px wide, although `floatWidthAuto` would respect the maximum. -/
-theorem float_width_ignores_min_max :
+/-- Regression (former finding float-width-ignores-min-max, repaired in 802b9d8): `width: 200px; max-width: 100px`
+is 100px wide, and `width: 20px; min-width: 50px` is 50px wide. -/
+theorem float_width_respects_min_max :
     let f : FloatSpec := ⟨.left, .none, .px 200, some 10, .px 0, .px 0, .px 0, .px 0, .px 0, .px 0, .px 0, .px 0,
       0, 0, 0, 0, .auto, .px 100, 0, 0, 0, 0⟩
-    (floatResolve f 100).bw = 200 ∧ floatWidthAuto 0 (some 100) 0 300 100 = 100 := by
+    let g : FloatSpec := { f with width := .px 20, minW := .px 50, maxW := .auto }
+    (floatResolve f 100).bw = 100 ∧ (floatResolve g 100).bw = 50 := by
   refine ⟨by decide +kernel, by decide +kernel⟩
 
 /-- A right-aligned line taller than the strut is positioned with the room measured on the strut band: a 30x12
@@ -85,7 +104,7 @@ x = 70..100, over the right float (40..100 from y = 9): `placed_box_no_overlap` 
 position that `get_next_linebox` computes for alignments other than start. -/
 theorem tall_line_aligned_in_strut_band :
     let shapes : List Shape := [⟨0, 0, 10, 9, .left⟩, ⟨40, 9, 60, 30, .right⟩]
-    (nextLinebox ⟨0, 100, false⟩ 8 .right shapes ⟨0, 30, 12, []⟩ 0).toOption.map (fun t => (t.x, t.y)) = some (70, 0) ∧
+    (nextLinebox ⟨0, 100, false⟩ 8 .right shapes shapes ⟨0, 30, 12, [], true⟩ 0).toOption.map (fun t => (t.x, t.y)) = some (70, 0) ∧
     Overlaps 70 0 30 12 ⟨40, 9, 60, 30, .right⟩ := by
   refine ⟨by decide +kernel, ?_⟩
   simp [Overlaps]
@@ -98,15 +117,43 @@ theorem fixed_in_absolute_not_repeated :
     Positioned.pageFixed [[⟨1, 0, 0, true⟩], []] 1 = [] ∧ Positioned.pageFixed [[⟨1, 0, 0, true⟩], []] 0 ≠ [] := by
   decide +kernel
 
-/-- A float kept on its line is moved to the line's top whatever `find_float_position` decided: a `clear:left`
-5x10 float met in a line next to an 80x30 left float ends at the line's top, over that float. -/
-theorem inline_float_snapped_to_line_top :
+/-- Regression (former finding inline-float-snapped-to-line-top, repaired in 330f66c): a `clear:left` 5x10 float met
+in a line next to an 80x30 left float stays where `float_layout` put it, below that float, and overlaps nothing. -/
+theorem inline_float_keeps_its_position :
     let shapes : List Shape := [⟨0, 0, 80, 30, .left⟩]
-    let l : LineSpec := ⟨10, 10, 10, [⟨0, 0, 0, 0, 0, 0, 5, 10, .left, .left, .bfc⟩]⟩
-    ((layoutLines ⟨0, 100, false⟩ 10 .start shapes [l] 0).toOption.map (fun r => r.2.1.map (fun p => p.floats)))
-      = some [[(0, 0, 5, 10)]] ∧ Overlaps 0 0 5 10 ⟨0, 0, 80, 30, .left⟩ := by
+    let l : LineSpec := { w0 := 10, w := 10, h := 10, floats := [⟨0, 0, 0, 0, 0, 0, 5, 10, .left, .left, .bfc⟩] }
+    ((layoutLines ⟨0, 100, false⟩ 10 .start shapes shapes [l] 0).toOption.map (fun r => r.2.2.1.map (fun p => p.floats)))
+      = some [[(0, 30, 5, 10)]] ∧ ¬ Overlaps 0 30 5 10 ⟨0, 0, 80, 30, .left⟩ := by
   refine ⟨by decide +kernel, ?_⟩
   simp [Overlaps]
+  intro _ _ h
+  exact absurd h (by decide +kernel)
+
+/-- Regression (former finding rtl-inline-float-displaced, repaired in 330f66c): in an rtl container starting at
+x = 20, a 20x10 left float met in a line after a 20px word — next to an earlier float, so that the line is laid out
+once — stays at the left edge beside that float's band (x = 20 under a 100x5 float), not one line width further
+left. -/
+theorem rtl_inline_float_stays_in_container :
+    let shapes : List Shape := [⟨20, 20, 100, 5, .left⟩]
+    let l : LineSpec := { w0 := 20, w := 20, h := 10, floats := [⟨0, 0, 0, 0, 0, 0, 20, 10, .left, .none, .bfc⟩] }
+    ((layoutLines ⟨20, 100, true⟩ 10 .start shapes shapes [l] 20).toOption.map
+      (fun r => r.2.2.1.map (fun p => p.floats))) = some [[(20, 25, 20, 10)]] := by
   decide +kernel
+
+/-- **A float met in a line that is started again is laid out twice, and the first copy stays among the floats**
+(finding inline-float-laid-out-twice): `get_next_linebox` restores `context.excluded_shapes` from a copy when it
+starts the line again, but the list on the stack of formatting contexts still holds the float laid out by the
+abandoned pass, and the `finish_block_formatting_context` at the end of the next `float_layout` makes that list
+current again.  In an rtl container without earlier floats every first line is started again (the test compares
+`position_x + line.width` with `original_position_x + original_width`, and `original_width` is 0): a 20x10 left
+float after a 20px word in a 100px container starting at x = 20 ends at x = 40, beside a copy of itself at x = 20,
+instead of against the container's left edge. -/
+theorem inline_float_laid_out_twice :
+    let l : LineSpec := { w0 := 20, w := 20, h := 10, floats := [⟨0, 0, 0, 0, 0, 0, 20, 10, .left, .none, .bfc⟩] }
+    let r := (layoutLines ⟨20, 100, true⟩ 10 .start [] [] [l] 20).toOption
+    r.map (fun r => r.2.2.1.map (fun p => p.floats)) = some [[(40, 20, 20, 10)]] ∧
+    r.map (fun r => r.2.1) = some [⟨20, 20, 20, 10, .left⟩, ⟨40, 20, 20, 10, .left⟩] ∧
+    (40 : Rat) ≠ 20 := by
+  refine ⟨by decide +kernel, by decide +kernel, by decide +kernel⟩
 
 end Wp.Witness.C11
